@@ -5,6 +5,7 @@ package interp
 
 import (
 	"fmt"
+	"go/types"
 	"strings"
 )
 
@@ -44,43 +45,52 @@ func init() {
 	externals["errors.Unwrap"] = func(fr *frame, args []value) value { return unwrapErr(fr, args[0].(iface)) }
 	externals["errors.Is"] = func(fr *frame, args []value) value {
 		err, target := args[0].(iface), args[1].(iface)
+		if target.t == nil {
+			return err.t == nil
+		}
 		for depth := 0; err.t != nil && depth < 50; depth++ {
-			if sameType(err.t, target.t) {
-				comparable := true
-				func() {
-					defer func() {
-						if r := recover(); r != nil {
-							if enginePanic(r) {
-								panic(r)
-							}
-							comparable = false
-						}
-					}()
-					if truth(equalsV(err.t, err.v, target.v)) {
-						comparable = true
-						panic(isFound{})
-					}
-				}()
-				_ = comparable
+			if sameType(err.t, target.t) && errComparable(err.t) {
+				if truth(equalsV(err.t, err.v, target.v)) {
+					return true
+				}
 			}
 			err = unwrapErr(fr, err)
 		}
 		return false
 	}
-	// errors.Is uses a panic to return early from the closure above; wrap it
-	inner := externals["errors.Is"]
-	externals["errors.Is"] = func(fr *frame, args []value) (res value) {
-		defer func() {
-			if r := recover(); r != nil {
-				if _, ok := r.(isFound); ok {
-					res = true
-					return
+	externals["errors.As"] = func(fr *frame, args []value) value {
+		err := args[0].(iface)
+		tgt := args[1].(iface)
+		if tgt.t == nil {
+			panic(targetPanic{iface{t: nil, v: "errors: target cannot be nil"}})
+		}
+		pt, ok := tgt.t.Underlying().(*types.Pointer)
+		if !ok {
+			panic(targetPanic{iface{t: nil, v: "errors: target must be a non-nil pointer"}})
+		}
+		want := pt.Elem()
+		cell := tgt.v.(*value)
+		for depth := 0; err.t != nil && depth < 50; depth++ {
+			if it, isIface := want.Underlying().(*types.Interface); isIface {
+				if err.t != errorType && err.t != rtypeType && types.Implements(err.t, it) {
+					store(want, cell, err)
+					return true
 				}
-				panic(r)
+			} else if types.Identical(err.t, want) {
+				store(want, cell, err.v)
+				return true
 			}
-		}()
-		return inner(fr, args)
+			err = unwrapErr(fr, err)
+		}
+		return false
 	}
+}
+
+func errComparable(t types.Type) bool {
+	if t == errorType {
+		return true
+	}
+	return types.Comparable(t)
 }
 
 type isFound struct{}
